@@ -134,6 +134,37 @@ def loop_rules(ctx, rep, impl):
         polls = net.awaited(b, wbb) if is_async else [wbb]
         rep.check("R7.2", "%s:error-propagated:%d" % (impl, n), any(b.error_returned(pb) for pb in polls),
                   "a failed reply write must surface as the read's error", b.loc(wt["line"]))
+    # every failure of the reply write ends the read with an error: on the path table, a path that takes the Err answer of
+    # the write (directly, through `?`, or out of the awaited future) must return Err - not the packet, not another iteration
+    from mirq import simplify
+    try:
+        rows = b.decision_rows()
+    except Exception as ex:
+        rows = None
+        rep.fail("R7.2", "%s:reply-failure-returned" % impl, "path table of read not extractable (%s)" % ex, b.loc())
+    if rows is not None:
+        for n, (wbb, wt) in enumerate(W):
+            srcs = set(net.awaited(b, wbb)) if is_async else {wbb}
+
+            def of_write(x):
+                x = simplify(x)
+                if x[0] == "call" and (x[1] or "").endswith("Try::branch") and x[3]:
+                    x = simplify(x[3][0])
+                if x[0] == "field" and x[1][0] == "downcast" and x[1][3] == "Ready":
+                    x = x[1][1]
+                    return x[0] == "call" and len(x) > 4 and x[4] in srcs and is_async
+                return x[0] == "call" and len(x) > 4 and x[4] in srcs and not is_async
+            bad = []
+            nerr = 0
+            for conds, ret, _o in rows:
+                if not any(c[4][0] == "discr" and c[2] == "eq" and tuple(c[3]) == (1,) and of_write(c[4][1]) for c in conds):
+                    continue
+                nerr += 1
+                if not (ret[1] == "Err" or (ret[1].startswith("call:") and "from_residual" in ret[1]) or ret[1] == "diverge"):
+                    bad.append(ret[1])
+            rep.check("R7.2", "%s:reply-failure-returned:%d" % (impl, n), nerr >= 1 and not bad,
+                      "a failed reply write must end read() with that error; %d failure path(s) found, of which some end in %s (the keep-alive is handed over although no reply was written)"
+                      % (nerr, sorted(set(bad))), b.loc(wt["line"]), sample={"impl": impl, "failure_paths": nerr})
     # nothing else writes: no call on self.inner in read, and read_buf's only transport call is a read
     others = []
     for bb, t in b.calls():
